@@ -18,7 +18,7 @@ RULE = (
     'count/in/len/comparisons against lists, tuples and deques/iter/reversed/clear/maxlen=m, with maxlen in '
     '{None,0,1,3}, small and file-backed values with frequent duplicates, reopen/pickle/copy events, and origins '
     'Deque(...), FanoutCache.deque, DjangoCache.deque and a directory first created as an evicting Cache with a tiny '
-    'size_limit; oracle = collections.deque(maxlen) step by step (result, exception type, list() after every op; '
+    'size_limit, each with or without the underlying cache reset to a size_limit of 1 byte; oracle = collections.deque(maxlen) step by step (result, exception type, list() after every op; '
     'comparisons with sequence semantics). concurrent: 2-3 producers/consumers (append/appendleft/pop/popleft, with and '
     'without maxlen) under generated schedules; oracle = linearizability against the bounded deque. non-trivial = >= 3 '
     'method kinds incl. a positional one on a deque of length >= 2, or a persistence event; concurrent: two calls '
